@@ -16,7 +16,8 @@ PID = "C13"
 NAMES = {0: "prog", 1: "pa", 2: "pa2", 3: "p_c3"}      # one name a prefix of another, digits, underscore
 USES = ["CLS", "PRINT A", "Z=INT(A)", "PLAY \"C\"", "SOUND 1,2", "HSCREEN 2", "HCIRCLE(1,2),3", "INPUT A", "Z$=INKEY$", "HPRINT(1,2),\"X\"",
         "LOCATE 1,2", "Z=VAL(A$)", "Z=INSTR(1,A$,\"A\")", "PALETTE 1,2", "HBUFF 1,10", "Z=JOYSTK(0)", "WIDTH 40", "Z$=STRING$(3,\"A\")"]
-USES += ["Z=INT(A)+VAL(A$)", "Z$=HEX$(3)+STR$(4)", "HPRINT(1,2),3", "PRINT A;INSTR(1,A$,\"A\")", "Z=BUTTON(0)+JOYSTK(1)+POINT(1,2)",
+USES += ["A$=STRING$(3,\"(*\")", "PLAY \"(*\"", "Z=INSTR(1,A$,\"(* X *)\")+VAL(\"REM\")", "HPRINT(1,2),\"(*\":SOUND 1,2",
+         "Z=INT(A)+VAL(A$)", "Z$=HEX$(3)+STR$(4)", "HPRINT(1,2),3", "PRINT A;INSTR(1,A$,\"A\")", "Z=BUTTON(0)+JOYSTK(1)+POINT(1,2)",
          "IF INKEY$=\"A\" THEN SOUND 1,2 ELSE PLAY \"C\"", "CLS:LOCATE 1,2:ATTR 1,2", "FOR I=INT(A) TO VAL(A$):HSET(I,1,2):NEXT"]
 DECOYS_CTRL = ["PRINT \"PAGE\x0cRUN ecb_sound\x0cEND\"", "A$=\"X\x1cPROCEDURE ecb_fake\x1cY\"", "DATA A\x0bRUN ecb_play\x0bB,\"C\x1dD\"", "REM \x1eRUN ecb_hdraw\x1e"]
 DECOYS = ["PRINT \"RUN ecb_play\"", "A$=\"procedure zz\"", "DATA RUN ecb_sound, PROCEDURE x", "REM RUN ecb_play", "'RUN ecb_hdraw(1)",
